@@ -5,10 +5,10 @@ CONSTANTS
  MCShapes = {"img", "dup", "idx2", "nested", "art", "artidx", "bentry", "docker", "schema1", "ext", "empty", "inline", "dtag", "loop"}
  MCPairs = {"tworeg", "samereg", "samerepo", "reg2dir", "dir2reg", "dir2dir"}
  MCOpts <- MCOptsDefault
- MCFeats <- MCFeatsAll
+ MCFeats <- MCFeatsMount
  MCInit = "corners"
  MCTag0 = {"none", "stale", "same"}
- MCByDigest = {FALSE, TRUE}
+ MCByDigest = {FALSE}
  MCTgtByDigest = {FALSE}
  MaxFaults = 0
  AllowCancel = FALSE
